@@ -306,6 +306,12 @@ func c01Canon(i int) (name string, noRT bool, ops []op) {
 		return "refresh-refused", false, []op{login, adv, {K: "idp", Beh: &sim.Behaviour{Status: 400}, BehTag: "http-400"}, nav, nav}
 	case 4:
 		return "logout", false, []op{login, {K: "logout"}, nav}
+	case 7:
+		// the access token has run out, the ID token has not; the provider answers the refresh without an ID token, so
+		// the one the session holds is what has to be (re-)validated - with whatever the key source says then
+		return "refresh-answer-without-id-token", false, []op{login, {K: "advance", Rel: "atexp", D: time.Second}, {K: "idp", Beh: &sim.Behaviour{Name: "no-id-token", NoIDToken: true, Rotate: true}, BehTag: "no-id-token"}, nav, nav}
+	case 8:
+		return "refresh-answer-with-the-bare-minimum", false, []op{login, adv, {K: "idp", Beh: &sim.Behaviour{Name: "minimal", NoAccess: true, NoExpiresIn: true, OmitNonce: true}, BehTag: "minimal"}, nav, nav}
 	case 6:
 		b, _ := c01BehaviourByName("foreign-key")
 		return "refresh-answer-fails-validation", false, []op{login, adv, {K: "idp", Beh: b, BehTag: "foreign-key"}, nav, nav}
@@ -317,8 +323,8 @@ func c01Canon(i int) (name string, noRT bool, ops []op) {
 func c01Enum(pairs bool) func(c *sim.Case) {
 	cache := map[int]int{}
 	return func(c *sim.Case) {
-		combo := sim.Pick(c, "combo", 28) // history x store x forwarding
-		hi, st, at := combo%7, (combo/7)%2, combo/14
+		combo := sim.Pick(c, "combo", 36) // history x store x forwarding
+		hi, st, at := combo%9, (combo/9)%2, combo/18
 		if pairs && hi > 2 && hi != 4 {
 			c.Skip("pairs only for the three shortest histories")
 		}
@@ -429,7 +435,7 @@ func c01Server(c *sim.Case) {
 func TestC01(t *testing.T) {
 	r := sim.NewRun(t, "C01")
 	defer r.Finish()
-	r.Rule = "histories of browser ops (nav, login, authorize, callback, logout), clock advances around token expiries, provider behaviour switches and attacker requests (no cookie, unknown/stale/pending id, garbage cookie, replayed/forged callbacks) on memory and Redis stores; each history runs clean, then again with 1-2 injected faults at drawn interception points (every SessionStore call, token-endpoint call, key lookup; before or after taking effect). Enumerated part: seven canonical histories x both stores x forwarding on/off x EVERY single fault position x both modes (pairs for the short ones in thorough). Non-trivial = history has an OK verdict and at least one of {clock advance, logout, fault fired, attacker request}; distinct = distinct (config, step kinds and verdict codes, fault plan)."
+	r.Rule = "histories of browser ops (nav, login, authorize, callback, logout), clock advances around token expiries, provider behaviour switches and attacker requests (no cookie, unknown/stale/pending id, garbage cookie, replayed/forged callbacks) on memory and Redis stores; each history runs clean, then again with 1-2 injected faults at drawn interception points (every SessionStore call, token-endpoint call, key lookup; before or after taking effect). Enumerated part: nine canonical histories x both stores x forwarding on/off x EVERY single fault position x both modes (pairs for the short ones in thorough). Non-trivial = history has an OK verdict and at least one of {clock advance, logout, fault fired, attacker request}; distinct = distinct (config, step kinds and verdict codes, fault plan)."
 	r.Assumptions = []string{
 		"the abstract session model is driven only by observed responses and the provider's ledger, never by store contents",
 		"a step during which a fault fired makes the model set-valued (effect happened / did not)",
